@@ -437,7 +437,12 @@ func makeClusteringPlugin() error {
 	// be one since this tls plugin requires it) -- this should be done exactly
 	// once, but we can't do it during init while plugins are still registering,
 	// so do it as soon as we run a setup)
-	if atomic.CompareAndSwapInt32(&clusterPluginSetup, 0, 1) {
+	// (the step counts as done only once it has succeeded: a load that failed
+	// here must fail the same way when it is tried again, not run on
+	// whatever storage happens to be the default)
+	clusterPluginMu.Lock()
+	defer clusterPluginMu.Unlock()
+	if atomic.LoadInt32(&clusterPluginSetup) == 0 {
 		clusterPluginName := os.Getenv("CASKET_CLUSTERING")
 		if clusterPluginName == "" {
 			clusterPluginName = "file" // name of default storage plugin
@@ -449,6 +454,7 @@ func makeClusteringPlugin() error {
 				return fmt.Errorf("constructing cluster plugin %s: %v", clusterPluginName, err)
 			}
 			certmagic.Default.Storage = storage
+			atomic.StoreInt32(&clusterPluginSetup, 1)
 		} else {
 			return fmt.Errorf("unrecognized cluster plugin (was it included in the Casket build?): %s", clusterPluginName)
 		}
